@@ -3,12 +3,18 @@ package props
 import (
 	"bytes"
 	"compress/gzip"
+	"context"
+	"encoding/json"
 	"fmt"
 	"net/http"
+	"os"
+	"os/exec"
 	"runtime"
+	"strconv"
 	"strings"
 	"sync"
 	"sync/atomic"
+	"time"
 
 	restful "github.com/emicklei/go-restful/v3"
 
@@ -131,13 +137,23 @@ func c19Sig(o *rt.Outcome) string {
 
 func c19(ctx *core.Ctx) {
 	quietLogs()
-	ctx.Rule("generated configurations (route table on the router's full template fragment, recording filters at all three levels labelled with their route/service, a filter writing a per-request attribute and a per-request key into PathParameters(), a HandleWithFilter handler, handlers that read the raw request body, an echo route reading gzip-encoded entities that arrive in small slices, 0-5 extra container filters, CORS filter with configured or computed methods, OPTIONS filter, content encoding with the sync.Pool or a bounded(1,1) compressor provider, handlers writing raw bytes or negotiated entities, streaming handlers that Flush their first chunk, handlers switching PrettyPrint off for their own entity; both routers; Dispatch or ServeHTTP). For each request of a multiset of 40 (hits, near misses, adversarial, a parameter-less resource in two representations each way asked for with matching and non-matching media headers, malformed Accept, CORS actual and preflight requests for different URLs, Accept-Encoding) the reference is the answer of a FRESH container to that request alone through the same entry point. Then (a) a 200-request sequential history in random order with repetitions, every 5th step preceded by the same request from a client whose connection fails on every body write, (b) batches released together from 16 (now and then 70) goroutines, (c) the sequential history again with trace logging on: status, all headers, decoded body, path parameters, selected route and attributes seen by every filter/handler must equal the reference. Race detector on. Non-trivial = a compared response of a request that ran at least one filter or handler; distinct by (configuration shape, phase, outcome class).")
+	ctx.Rule("generated configurations (route table on the router's full template fragment, recording filters at all three levels labelled with their route/service, a filter writing a per-request attribute and a per-request key into PathParameters(), a HandleWithFilter handler, handlers that read the raw request body, an echo route reading gzip-encoded entities that arrive in small slices, 0-5 extra container filters, CORS filter with configured or computed methods, OPTIONS filter, content encoding with the sync.Pool or a bounded(1,1) compressor provider, handlers writing raw bytes or negotiated entities, streaming handlers that Flush their first chunk, handlers switching PrettyPrint off for their own entity; both routers; Dispatch or ServeHTTP). For each request of a multiset of 40 (hits, near misses, adversarial, a parameter-less resource in two representations each way asked for with matching and non-matching media headers, malformed Accept, CORS actual and preflight requests for different URLs, Accept-Encoding) the reference is the answer of a FRESH container to that request alone through the same entry point; for every 5th (thorough: 25th) configuration the fresh-container answers are also computed by two further PROCESSES of this binary that serve the multiset in reverse and in shuffled order, and must be the same (state left behind in package-level variables would otherwise pollute reference and history alike). Then (a) a 200-request sequential history in random order with repetitions, every 5th step preceded by the same request from a client whose connection fails on every body write, (b) batches released together from 16 (now and then 70) goroutines, (c) the sequential history again with trace logging on: status, all headers, decoded body, path parameters, selected route and attributes seen by every filter/handler must equal the reference. Race detector on. Non-trivial = a compared response of a request that ran at least one filter or handler; distinct by (configuration shape, phase, outcome class).")
 	ctx.Assume("the reference is per (request, entry point): ServeHTTP answers unregistered prefixes from net/http's mux")
 	defer restful.EnableTracing(false)
 	defer restful.SetCompressorProvider(restful.NewSyncPoolCompessors())
 	configs := ctx.N(50, 1500)
+	// child mode (see firstInAnotherProcess): this process only computes the fresh-container answers of ONE configuration,
+	// in the order it is told, and exits
+	childCi, childOrder, childOut := -1, "", ""
+	if spec := strings.SplitN(os.Getenv("VERIF_C19_CHILD"), ":", 3); len(spec) == 3 {
+		childCi, _ = strconv.Atoi(spec[0])
+		childOrder, childOut = spec[1], spec[2]
+	}
 	for ci := 0; ci < configs; ci++ {
-		if ctx.Skip(ci) {
+		if childCi >= 0 && ci != childCi {
+			continue
+		}
+		if childCi < 0 && ctx.Skip(ci) {
 			continue
 		}
 		r := ctx.Rand(ci, "cfg")
@@ -274,16 +290,50 @@ func c19(ctx *core.Ctx) {
 			case 29, 35, 37:
 				req = rt.Req{Method: "POST", Path: "/lit19/doc", HasCT: true, CT: map[int]string{29: restful.MIME_JSON, 35: restful.MIME_XML, 37: "text/plain"}[q], BodyLen: 4, Hdr: map[string]string{}, Class: "literal-twins"}
 			}
+			if q == 19 || q == 27 || q == 34 {
+				// a route that declares no Produces, asked with Accept values that agree up to the first ';' and name another
+				// registered type behind it (nothing producible matches: the writer is found by looking into the whole value)
+			search:
+				for si := range t.Svcs {
+					for ri := range t.Svcs[si].Routes {
+						rs := &t.Svcs[si].Routes[ri]
+						if len(rs.Produces) == 0 && len(rs.Conds) == 0 && rs.Method == "GET" {
+							req = rt.HitReq(r, &t.Svcs[si], rs)
+							if req.Hdr == nil {
+								req.Hdr = map[string]string{}
+							}
+							req.HasAcc = true
+							req.Accept = map[int]string{19: "text/html;q=0.9, application/json, */*;q=0.1", 27: "text/html;q=0.8, application/xml, */*;q=0.1", 34: "text/html;q=0.9, application/xml;q=0.9"}[q]
+							req.Class = "no-produces-negotiation"
+							break search
+						}
+					}
+				}
+			}
 			req.Hdr["X-Req"] = fmt.Sprintf("q%d", q)
 			reqs = append(reqs, req)
 		}
 		// reference: a fresh container per request
 		refs := make([]string, len(reqs))
 		restful.EnableTracing(false)
+		if childCi >= 0 {
+			sigs := map[int]string{}
+			for _, i := range orderOf(childOrder, len(reqs), ctx.Seed+uint64(ci)) {
+				sigs[i] = c19Sig(rt.Run(cf.mk(t), cf.Entry, &reqs[i]))
+			}
+			b, _ := json.Marshal(sigs)
+			if err := os.WriteFile(childOut, b, 0o644); err != nil {
+				os.Exit(3)
+			}
+			os.Exit(0)
+		}
 		for i := range reqs {
 			fresh := cf.mk(t)
 			refs[i] = c19Sig(rt.Run(fresh, cf.Entry, &reqs[i]))
 			ctx.Eval(1)
+		}
+		if ci%c19ChildEvery(ctx) == 0 && ctx.OnlyCase < 0 || ctx.OnlyCase == ci {
+			firstInAnotherProcess(ctx, ci, cf, t, reqs, refs)
 		}
 		c := cf.mk(t)
 		shape := fmt.Sprintf("%s|%s|enc=%v|cors=%v/%d|opt=%v|extra=%d|entity=%v|adapter=%v", cf.Router, cf.Entry, cf.Encoding, cf.CORS, len(cf.CORSMethods), cf.Options, cf.Extra, cf.Entity, cf.Adapter)
@@ -367,6 +417,69 @@ func c19(ctx *core.Ctx) {
 		}
 		if ctx.WantSample() {
 			ctx.Sample(map[string]interface{}{"config": cf, "first_request": reqs[0], "reference_answer": clip(refs[0], 300)})
+		}
+	}
+}
+
+func c19ChildEvery(ctx *core.Ctx) int {
+	if ctx.Quick() {
+		return 5
+	}
+	return 25
+}
+
+func orderOf(order string, n int, seed uint64) []int {
+	idx := make([]int, n)
+	for i := range idx {
+		idx[i] = i
+	}
+	switch order {
+	case "reverse":
+		for i := range idx {
+			idx[i] = n - 1 - i
+		}
+	case "shuffle":
+		idx = core.NewRand(seed*0x9e3779b97f4a7c15 + 77).Perm(n)
+	}
+	return idx
+}
+
+// firstInAnotherProcess: state that a request leaves behind in package-level variables of the library reaches the fresh
+// reference containers of THIS process as well - reference and history would agree on the polluted answer. Two further
+// processes (this binary, child mode) therefore compute the fresh-container answers of the same configuration with the
+// requests in reverse and in shuffled order, each starting from a process in which nothing has been served yet. "The same
+// whether the request is the first or the thousandth, whichever other requests were served before": all three must agree.
+func firstInAnotherProcess(ctx *core.Ctx, ci int, cf *c19Config, t *rt.Table, reqs []rt.Req, refs []string) {
+	for _, order := range []string{"reverse", "shuffle"} {
+		f, err := os.CreateTemp("", "verif-c19-child-*.json")
+		if err != nil {
+			ctx.Inconclusive("no temporary file for the reference process: " + err.Error())
+			return
+		}
+		name := f.Name()
+		f.Close()
+		cctx, cancel := context.WithTimeout(context.Background(), 5*time.Minute)
+		cmd := exec.CommandContext(cctx, os.Args[0], "-prop", "C19", "-tier", ctx.Tier, "-seed", fmt.Sprint(ctx.Seed), "-scale", fmt.Sprint(ctx.Scale), "-out", name+".result")
+		cmd.Env = append(os.Environ(), fmt.Sprintf("VERIF_C19_CHILD=%d:%s:%s", ci, order, name))
+		out, err := cmd.CombinedOutput()
+		cancel()
+		b, rerr := os.ReadFile(name)
+		os.Remove(name)
+		os.Remove(name + ".result")
+		var sigs map[int]string
+		if err != nil || rerr != nil || json.Unmarshal(b, &sigs) != nil || len(sigs) != len(reqs) {
+			ctx.Inconclusive(fmt.Sprintf("the reference process for configuration %d (%s order) gave no answers: %v %s", ci, order, err, clip(string(out), 300)))
+			return
+		}
+		ctx.Count("reference_processes", 1)
+		for i := range reqs {
+			ctx.Eval(1)
+			ctx.Count("answers_compared_with_another_process", 1)
+			if sigs[i] != refs[i] {
+				ctx.Violation(ci, "c19:differs:first-in-another-process:"+cf.Entry, fmt.Sprintf("%s %q (X-Req %s, Accept %q): a fresh container in this process answers: %s; a fresh container in a process that served the requests in %s order answers: %s", reqs[i].Method, reqs[i].Path, reqs[i].Hdr["X-Req"], reqs[i].Accept, clip(refs[i], 600), order, clip(sigs[i], 600)),
+					map[string]interface{}{"config": cf, "table": t, "request": reqs[i], "order_in_the_other_process": order, "this_process": refs[i], "other_process": sigs[i]})
+				return
+			}
 		}
 	}
 }
